@@ -13,7 +13,7 @@ def main():
 sites, narrow numeric windows other than non-canonical operands, or AVX512-only branches; round 3: twelve properties once more with a request for
 something different from both - placement/aliasing of the caller's buffers, thread counts that do not divide the work, sizes above 2^16,
 offset patterns, rarely used overloads, or edits that keep every value right but touch an element outside the designated positions; round 4: the eight
-properties that had only four changes so far - C01, C04, C10, C11, C14, C15, C18, C20 - with the round-2 request).  Each was confirmed by `seedtest.sh` in a fresh worktree (applies to HEAD, the repository suite passes 30/30 with it,
+properties that had only four changes so far - C01, C04, C10, C11, C14, C15, C18, C20 - with the round-2 request; round 5: C03, C08, C12, C16 once more).  Each was confirmed by `seedtest.sh` in a fresh worktree (applies to HEAD, the repository suite passes 30/30 with it,
 its demonstration fails with it and passes without it), then applied to /repo, the checks were run, and /repo was restored.  All are archived
 under `seeded/<name>/` (patch.diff, demonstration, build.sh, README.txt, meta.json); `seedcheck.sh` re-runs them all as a regression (every
 one must give exit 1 with a VIOLATION line, except the two changes documented as NOT CAUGHT, which no property covers: concurrent
@@ -50,8 +50,16 @@ fits/tdiv/cdiv/abs/cmpabs/addmul family, and the interpreter the `addcarry/subbo
 chains would use; and a change that swaps `nphase` and `nblock` on the way from `INTT` to `NTT` keeps every value right and only overruns a
 caller buffer that is as small as the one the library allocates for itself - the harness used to hand over `size*ncols` words; it still does
 (so the run never faults) but now asks the solver, per effective block count the path condition admits, whether the touched extent fits
-`size*ceil(ncols/nblock)` words (`min_buffer_check` in `gv/props/ntt.py`, reported as `oob-write` so that C03/C04 and C18 both see it).
-''' % (len(rows), 'sixty', '\n'.join(rows))
+`size*ceil(ncols/nblock)` words (`min_buffer_check` in `gv/props/ntt.py`, reported as `oob-write` so that C03/C04 and C18 both see it).  Round 5 (8 changes) found three more,
+all first answered by exit 2 or exit 0 rather than by a false alarm: (a) a scatter rewritten component by component writes the same values to
+the same positions in a different order, which differs from the scalar loop only for overlapping output strides - the final-memory comparison
+that handles "write logs differ" had never run on the unchanged tree and crashed on an unconverted value (fixed; it now proves or refutes the
+equality of the two final memories at a fresh symbolic index); (b) a Karatsuba step switched to a `_b_c` kernel fails only when the product of
+*one* coefficient pair is non-canonical and the product of *another* is small - kernel-level solver witnesses are now also placed per
+coefficient position with the consumer's other operand next to them; (c) an `if` clause on a parallel region (`__kmpc_serialized_parallel`)
+was unknown to the OpenMP model, and a race behind a level-size threshold of 64 needs a tree of at least 128 rows: the stubs exist now and C12
+analyses a 256-row tree (levels of 128 and 64 pairs) for every builder.
+''' % (len(rows), 'sixty-four', '\n'.join(rows))
     p = os.path.join(V, 'DESIGN.md'); s = open(p).read()
     i = s.find('### 8.5 Seeded changes'); j = s.find('### 8.6 ')
     tail = s[j:] if j >= 0 else ''
